@@ -96,13 +96,24 @@ func (e *ExchangeJSightSchema) buildContent() error {
 }
 
 func (e *ExchangeJSightSchema) CastToObject() *ExchangeJSightSchema {
+	return e.castToObject(map[string]struct{}{})
+}
+
+// castToObject follows references to user types; visited stops at a type which
+// refers to itself (`TYPE @a` with the body `@a // {nullable: true}` is a valid
+// schema): such a chain never reaches an object.
+func (e *ExchangeJSightSchema) castToObject(visited map[string]struct{}) *ExchangeJSightSchema {
 	switch e.ASTNode.TokenType {
 	case "object":
 		return e
 	case "reference":
+		if _, ok := visited[e.ASTNode.Value]; ok {
+			return nil
+		}
+		visited[e.ASTNode.Value] = struct{}{}
 		if ut, ok := e.catalogUserTypes.Get(e.ASTNode.Value); ok {
 			if ee, ok := ut.Schema.(*ExchangeJSightSchema); ok {
-				return ee.CastToObject()
+				return ee.castToObject(visited)
 			} else {
 				return nil
 			}
